@@ -289,6 +289,12 @@ func generate(r *lib.Run, rng *lib.Rand) []scenario {
 	// (compared against the model through the compressed event x.65535 = BulkFail 65535)
 	scs = append(scs, scenario{next0: 40000, class: "wrap", toks: strings.Fields(
 		"b4.0.g.5000 s x.65535 s b6.1.g.5000 s f.rep4.0.0.3 s w.1 s w.0 s")})
+	// the identifier of a call that was answered inside its send is handed to a newer call before the
+	// older one returns (send succeeds / send fails): the older call must not delete the newer entry
+	scs = append(scs, scenario{next0: 40000, class: "wrap", toks: strings.Fields(
+		"q4.0.5000 f.rep4.0.0.1 x.65535 b6.1.g.5000 s z.0.T s w.0 s f.rep6.1.0.2 s w.1 s")})
+	scs = append(scs, scenario{next0: 7, class: "wrap", toks: strings.Fields(
+		"q6.0.5000 f.rep6.0.0.1 x.65535 b4.1.g.5000 s z.0.F s f.rep4.1.0.2 s w.1 s")})
 	scs = append(scs, scenario{next0: 65530, class: "wrap", toks: strings.Fields(
 		"b6.0.g.400 x.3 b4.1.g.400 x.20 s b4.2.g.400 s f.rep4.1.0.3 f.rep6.0.0.1 w.0 w.1 s f.rep4.2.0.9 w.2 s")})
 	for i := 0; i < n; i++ {
